@@ -34,6 +34,8 @@ type opArgs struct {
 	Seed   uint64 `json:"seed"`
 	Resp   int    `json:"resp"`
 	Status int    `json:"status"`
+	// Net: go through a real HTTP server and net/http's client instead of the in-process transport
+	Net bool `json:"net"`
 }
 
 type rnd struct{ s uint64 }
@@ -304,6 +306,7 @@ func respInfo(p *Pkg, c *Case) string {
 		r := &rnd{s: a.Seed + uint64(idx)*1000003}
 		fn := reflect.ValueOf(p.Funcs[n])
 		fnT := fn.Type()
+		expectedVals := -1
 		apiPtr.Elem().FieldByName(field).Set(reflect.MakeFunc(ft, func(args []reflect.Value) []reflect.Value {
 			in := make([]reflect.Value, fnT.NumIn())
 			for i := range in {
@@ -315,6 +318,7 @@ func respInfo(p *Pkg, c *Case) string {
 				}
 			}
 			res := fn.Call(in)[0]
+			expectedVals = headerValueCount(res)
 			out := reflect.New(iface).Elem()
 			out.Set(res)
 			return []reflect.Value{out}
@@ -349,9 +353,48 @@ func respInfo(p *Pkg, c *Case) string {
 			}
 		}
 		codeArg := fnT.NumIn() > 0 && fnT.In(0).Kind() == reflect.Int
-		outs = append(outs, fmt.Sprintf("%s:status=%d,code_arg=%v,ct=%s,headers=%s,body=%s,w=%d", n, w.status, codeArg, w.h.Get("Content-Type"), strings.Join(hk, "+"), bk, w.nWH))
+		written := 0
+		for _, k := range hk {
+			written += len(w.h[k])
+		}
+		outs = append(outs, fmt.Sprintf("%s:status=%d,code_arg=%v,ct=%s,headers=%s,body=%s,w=%d,hv=%d/%d", n, w.status, codeArg, w.h.Get("Content-Type"), strings.Join(hk, "+"), bk, w.nWH, written, expectedVals))
 	}
 	return strings.Join(outs, " ; ")
+}
+
+// headerValueCount: how many header field lines a response value carries: one per set scalar
+// header, one per element of a set array header (fields of its Headers struct).
+func headerValueCount(res reflect.Value) int {
+	v := res
+	for v.Kind() == reflect.Interface || v.Kind() == reflect.Pointer {
+		if v.IsNil() {
+			return -1
+		}
+		v = v.Elem()
+	}
+	if v.Kind() != reflect.Struct {
+		return -1
+	}
+	hf := v.FieldByName("Headers")
+	if !hf.IsValid() || hf.Kind() != reflect.Struct {
+		return 0
+	}
+	n := 0
+	for i := 0; i < hf.NumField(); i++ {
+		f := hf.Field(i)
+		if isWrapper(f.Type(), "Maybe") || isWrapper(f.Type(), "Nullable") {
+			if !f.FieldByName("IsSet").Bool() {
+				continue
+			}
+			f = f.FieldByName("Value")
+		}
+		if f.Kind() == reflect.Slice && f.Type() != reflect.TypeOf([]byte(nil)) {
+			n += f.Len()
+		} else {
+			n++
+		}
+	}
+	return n
 }
 
 func clientCall(p *Pkg, c *Case) string {
@@ -408,6 +451,22 @@ func clientCall(p *Pkg, c *Case) string {
 	}))
 	rc := &recordingClient{api: apiPtr.Interface().(http.Handler)}
 	cl := newClientFor(p, apiPtr, rc)
+	var st *statusTransport
+	if a.Net {
+		// a real server on the loopback interface and net/http's own client: bodies are streams that
+		// really close, headers really cross the wire
+		srv := httptest.NewServer(apiPtr.Interface().(http.Handler))
+		defer srv.Close()
+		st = &statusTransport{}
+		hc := &http.Client{Transport: st, CheckRedirect: func(*http.Request, []*http.Request) error { return http.ErrUseLastResponse }}
+		f := cl.Elem().FieldByName("HTTPClient")
+		hv := reflect.New(f.Type()).Elem()
+		hv.Set(reflect.ValueOf(hc))
+		f.Set(hv)
+		bu := cl.Elem().FieldByName("BaseURL")
+		bu.SetString(srv.URL + bu.String())
+		rc.last = "net"
+	}
 	m := cl.MethodByName(opName)
 	if !m.IsValid() {
 		return "no-client-method " + opName
@@ -432,7 +491,21 @@ func clientCall(p *Pkg, c *Case) string {
 		rv := res[0].Elem()
 		got = rv.Type().Name() + dumpWithBodies(rv)
 	}
+	if st != nil && (st.status == 204 || st.status == 304 || (st.status >= 100 && st.status < 200)) {
+		return "skip:status-without-body" // net/http does not transmit a body with these statuses
+	}
 	return fmt.Sprintf("sent=%s parsed=%s wire=%s respsent=%s respgot=%s", sentParams, parsed, rc.last, sentResp, got)
+}
+
+// statusTransport remembers the status code the server really answered with.
+type statusTransport struct{ status int }
+
+func (t *statusTransport) RoundTrip(r *http.Request) (*http.Response, error) {
+	resp, err := http.DefaultTransport.RoundTrip(r)
+	if resp != nil {
+		t.status = resp.StatusCode
+	}
+	return resp, err
 }
 
 // dumpRespKeepingBodies dumps a response struct, re-arming raw bodies afterwards.
